@@ -152,6 +152,17 @@ func checkHeaderWiring(c *report.Ctx) {
 		}
 		if key, isC := an.ConstString(args[1]); isC {
 			got[key] = append(got[key], w.Origins(args[2])...)
+			continue
+		}
+		// headers set from a local table of {name, value} rows applied in a loop
+		kf, rows := tableRowsOf(args[1])
+		vf, rows2 := tableRowsOf(args[2])
+		if kf != "" && vf != "" && len(rows) == len(rows2) && an.InLoop(call) {
+			for _, row := range rows {
+				if key, isC := an.ConstString(row[kf]); isC && row[vf] != nil {
+					got[key] = append(got[key], w.Origins(row[vf])...)
+				}
+			}
 		}
 	}
 	for key, wantO := range want {
